@@ -25,7 +25,9 @@ def extra_patterns():
             mk([(L('.'), ('star',)),]), mk([(L('.'), ('star',)), star]), mk([gs, (L('.'), ('star',))]), mk([(L('a'),), (L('r'),), gs]), mk([(L('a'),), (L('l'), L('r')), star]),
             mk([(L('s'), L('u'), L('b')), star, (L('q'),)]), mk([(L('s'), L('u'), L('b')), (L('d'),), (L('q'),)]), mk([(L('S'), L('u'), L('b')), (L('d'),), star]), mk([(L('S'), L('u'), L('b')), (L('D'),), (L('q'),)]),
             mk([(L('x'), ('esc', '\\'), L('y'))]), mk([(star[0], ('esc', '\\'), star[0])]), mk([(L('q'), ('esc', '\\')), star]), mk([(L('x'), ('esc', '\\')), (L('y'),)]), mk([(L('a'), ('esc', '*'), L('b'))]),
-            mk([(('ext', '?', ((L('a'),),)), ('star',))]), mk([star, (('ext', '@', ((L('a'),), (L('e'),))),), star])]
+            mk([(('ext', '?', ((L('a'),),)), ('star',))]), mk([star, (('ext', '@', ((L('a'),), (L('e'),))),), star]),
+            # a pattern that is exactly one literal name: a dangling / looping link named as written is an existing path (lexists)
+            mk([(L('d'), L('a'), L('n'), L('g'))]), mk([(L('l'), L('f'))]), mk([(L('l'), L('d'))]), mk([(L('l'), L('h'))]), mk([(L('f'),)]), mk([(L('n'), L('o'), L('n'), L('e'))])]
 
 
 def run(chk, tier, seed):
